@@ -117,6 +117,24 @@ func v3Check(c *Ctx, w *Worker, api *probe.API, m *spec.V3Model, o probe.Obj, a 
 	w.counts["envscore-hist-"+strconv.Itoa(r.Env.K[0]/10)]++
 }
 
+// v3Rescore: score -> Set one metric -> score again on the SAME object, judged by the oracle for the
+// new values (a memo / cache keyed on too little would return the previous result).
+func v3Rescore(c *Ctx, w *Worker, api *probe.API, m *spec.V3Model, o probe.Obj, a spec.Assign, steps func() []Step) {
+	v := api.Ver
+	mi := w.R.Intn(v.N())
+	vi := w.R.Intn(len(v.Metrics[mi].Values))
+	if err, p := probe.SafeSet(o, v.Metrics[mi].Abv, v.Metrics[mi].Values[vi]); err != nil || p != nil {
+		return // C07/C09 judge Set itself
+	}
+	b := a.Clone()
+	b[mi] = uint8(vi)
+	st := func() []Step {
+		return append(steps(), Step{Op: "score"}, Step{Op: "set", S: v.Metrics[mi].Abv, Val: v.Metrics[mi].Values[vi]})
+	}
+	v3Check(c, w, api, m, o, b, st, nil)
+	w.Count("rescored-after-Set")
+}
+
 // v3ClassAssign maps class index i (0..16,588,799) to an assignment with Modified metrics X.
 func v3ClassAssign(i int) spec.Assign {
 	a := make(spec.Assign, 22)
@@ -144,6 +162,9 @@ func CheckC03(c *Ctx) {
 				return
 			}
 			v3Check(c, w, api, m, o, a, steps, classes)
+			if i&7 == 3 {
+				v3Rescore(c, w, api, m, o, a, steps)
+			}
 			if i%1000003 == 0 {
 				w.Sample(map[string]any{"version": v.Name, "vector": v.Canonical(a), "base": o.Score(0), "temporal": o.Score(1), "environmental": o.Score(2)})
 			}
@@ -210,6 +231,9 @@ func CheckC03(c *Ctx) {
 				return
 			}
 			v3Check(c, w, api, m, o, a, steps, classes)
+			if i&3 == 1 {
+				v3Rescore(c, w, api, m, o, a, steps)
+			}
 			w.Count("overlay-objects")
 			if i%500009 == 0 {
 				w.Sample(map[string]any{"version": v.Name, "vector": v.Canonical(a), "environmental": o.Score(2)})
@@ -281,6 +305,26 @@ func CheckC05(c *Ctx) {
 			return
 		}
 		seen.Add(1)
+		if i&7 == 5 && i >= 0 {
+			// score -> Set one metric -> score again on the same object, judged by the oracle for the new values
+			mi := w.R.Intn(v.N())
+			vi := w.R.Intn(len(v.Metrics[mi].Values))
+			if err, p := probe.SafeSet(o, v.Metrics[mi].Abv, v.Metrics[mi].Values[vi]); err == nil && p == nil {
+				b := a.Clone()
+				b[mi] = uint8(vi)
+				r2 := m.Score(b)
+				for k, set := range [3]spec.KSet{r2.Base, r2.Temporal, r2.Env} {
+					f, p := probe.SafeScore(o, k)
+					w.Eval()
+					if kk, exact := tenth(f); p != nil || !exact || !set.Has(kk) {
+						c.Violate(Violation{Kind: "wrong-score-after-set", Version: v.Name, Steps: append(steps(), Step{Op: "score"}, Step{Op: "set", S: v.Metrics[mi].Abv, Val: v.Metrics[mi].Values[vi]}, Step{Op: "score"}),
+							Expected: fmt.Sprintf("%s in %v (tenths) for %s", api.ScoreNames[k], set.List(), v.Canonical(b)), Observed: fmt.Sprint(fstr(f), p), Detail: map[string]any{"method": api.ScoreNames[k]}})
+						return
+					}
+				}
+				w.Count("rescored-after-Set")
+			}
+		}
 		if i%7000003 == 0 {
 			w.Sample(map[string]any{"vector": v.Canonical(a), "base": o.Score(0), "temporal": o.Score(1), "environmental": o.Score(2), "oracle_env_tenths": r.Env.List()})
 		}
@@ -426,6 +470,24 @@ func v4Check(c *Ctx, w *Worker, api *probe.API, a spec.Assign, st int, stats *v4
 	}
 	if sample {
 		w.Sample(map[string]any{"vector": v.Canonical(a), "score": f, "macrovector": fmt.Sprint(r.MV), "history": StyleNames[st]})
+	}
+	if w.R.Intn(8) == 0 {
+		// score -> Set one metric -> score again on the same object, judged by the oracle for the new values
+		mi := w.R.Intn(v.N())
+		vi := w.R.Intn(len(v.Metrics[mi].Values))
+		if err, p := probe.SafeSet(o, v.Metrics[mi].Abv, v.Metrics[mi].Values[vi]); err == nil && p == nil {
+			b := a.Clone()
+			b[mi] = uint8(vi)
+			want := spec.V4Score(spec.V4Effective(b))
+			f2, p2 := probe.SafeScore(o, 0)
+			w.Eval()
+			if p2 != nil || f2 != float64(want.K)/10 {
+				c.Violate(Violation{Kind: "wrong-score-after-set", Version: v.Name, Steps: append(steps(), Step{Op: "score"}, Step{Op: "set", S: v.Metrics[mi].Abv, Val: v.Metrics[mi].Values[vi]}, Step{Op: "score"}),
+					Expected: fmt.Sprintf("Score = %.1f for %s", float64(want.K)/10, v.Canonical(b)), Observed: fmt.Sprint(fstr(f2), p2)})
+				return
+			}
+			w.Count("rescored-after-Set")
+		}
 	}
 }
 
